@@ -58,6 +58,8 @@ func init() {
 		rlen := run.Rule("LEN-const", "constant-bound accesses on parameter-derived slices are guarded by a length fact along every call chain from an exported entry", 60).RequireControl(1)
 		rpanic := run.Rule("PANIC-class", "every explicit panic is provably impossible, a guarded vector stub, init-time, or documented", 40).RequireControl(1)
 		rneu := run.Rule("ERR-iii", "every UnmarshalBinary leaves its receiver neutral on failure: no input-derived data, and either reset to one constant state on all failing paths or untouched, per the frozen mode table", 25)
+		rnar := run.Rule("LOOP-narrow", "no up-counted 8/16-bit loop counter is tested with an inclusive bound that can be the largest value of its type (the loop would never end on the largest valid input)", 1).RequireControl(1)
+		rlst := run.Rule("LIST-type", "unchecked type assertions on container/list elements assert the one type the package puts into its lists", 1)
 		ridx := run.Rule("IDX-dec", "an index counted down inside a loop is kept at or above zero wherever it indexes", 20)
 		rnil := run.Rule("DT-cache-delegation", "the caching verifier fails without verifying when the key cannot be obtained and otherwise delegates with the (non-nil) expanded key it obtained", 6)
 		for _, id := range c.Configs() {
@@ -75,6 +77,8 @@ func init() {
 				}
 			}
 			run.Sample(checkIndexDecrement(p, ridx))
+			run.Sample(checkLoopNarrow(p, rnar))
+			run.Sample(checkListTypes(p, rlst))
 			st := elen.CheckErr(run, p, ri, rii, nil)
 			run.Sample(map[string]any{"config": id, "error-returning functions": st.Functions, "failure tests": st.Tests, "returns": st.Returns})
 			ent := elen.NewEntries(p)
